@@ -331,6 +331,21 @@ V("C02", "iterload-no-seek-skip", "mdtraj/core/trajectory.py", "            if s
 V("C02", "iterload-chunk0-drops-stride", "mdtraj/core/trajectory.py", "        yield load(filename, atom_indices=atom_indices, **kwargs)[skip::stride]", "        yield load(filename, atom_indices=atom_indices, **kwargs)[skip:]",
   "C02-R6", "iterload")
 V("C02", "load-list-drops-kwargs", "mdtraj/core/trajectory.py", "        t = loader(f, **kwargs)\n\n        t.topology = None", "        t = loader(f)\n\n        t.topology = None", "C02-R6", "load")
+# read_as_traj by evaluation (C02-R1c / R4 / R5): forms the textual rules could not tell apart
+V("C02", "twin-time-arange-start-stop-step", "mdtraj/formats/xyzfile.py", "        time = (stride * np.arange(len(xyz))) + initial", "        time = np.arange(initial, initial + stride * len(xyz), stride)", None)
+V("C02", "twin-subset-guard-inverted-form", "mdtraj/formats/xyzfile.py", "        if atom_indices is not None:\n            topology = topology.subset(atom_indices)\n\n        initial = int(self._frame_index)",
+  "        if atom_indices is None:\n            pass\n        else:\n            topology = topology.subset(atom_indices)\n\n        initial = int(self._frame_index)", None)
+V("C02", "twin-subset-into-new-name", "mdtraj/formats/netcdf.py", "        if atom_indices is not None:\n            topology = topology.subset(atom_indices)\n\n        xyz, time, cell_lengths, cell_angles = self.read(",
+  "        top = topology if atom_indices is None else topology.subset(atom_indices)\n        topology = top\n\n        xyz, time, cell_lengths, cell_angles = self.read(", None)
+V("C02", "twin-read-positional", "mdtraj/formats/lh5.py", "        xyz = self.read(n_frames=n_frames, stride=stride, atom_indices=atom_indices)", "        xyz = self.read(n_frames, stride, atom_indices)", None)
+V("C02", "lh5-read-positional-swapped", "mdtraj/formats/lh5.py", "        xyz = self.read(n_frames=n_frames, stride=stride, atom_indices=atom_indices)", "        xyz = self.read(stride, n_frames, atom_indices)", "C02-R1", "LH5TrajectoryFile.read_as_traj")
+V("C02", "lh5-time-from-cursor-after-read", "mdtraj/formats/lh5.py", "        time = (stride * np.arange(len(xyz))) + initial", "        time = (stride * np.arange(len(xyz))) + int(self._frame_index)", "C02-R4", "LH5TrajectoryFile.read_as_traj")
+V("C02", "arc-time-off-by-one", "mdtraj/formats/arc.py", "        time = (stride * np.arange(len(xyz))) + initial", "        time = (stride * np.arange(1, len(xyz) + 1)) + initial", "C02-R4", "ArcTrajectoryFile.read_as_traj")
+V("C02", "xyz-empty-exit-full-topology", "mdtraj/formats/xyzfile.py", "        if atom_indices is not None:\n            topology = topology.subset(atom_indices)\n\n        initial = int(self._frame_index)\n        xyz = self.read(n_frames=n_frames, stride=stride, atom_indices=atom_indices)\n        if len(xyz) == 0:\n            return Trajectory(xyz=np.zeros((0, topology.n_atoms, 3)), topology=topology)\n",
+  "        initial = int(self._frame_index)\n        xyz = self.read(n_frames=n_frames, stride=stride, atom_indices=atom_indices)\n        if len(xyz) == 0:\n            return Trajectory(xyz=np.zeros((0, topology.n_atoms, 3)), topology=topology)\n        if atom_indices is not None:\n            topology = topology.subset(atom_indices)\n", "C02-R5", "XYZTrajectoryFile.read_as_traj")
+V("C02", "gro-time-record-dropped", "mdtraj/formats/gro.py", "        traj = Trajectory(xyz=coordinates, topology=topology, time=time)", "        traj = Trajectory(xyz=coordinates, topology=topology)", "C02-R4", "GroTrajectoryFile.read_as_traj")
+V("C02", "h5-subset-of-subset-guard-truthy", "mdtraj/formats/hdf5.py", "        topology = self.topology\n        if atom_indices is not None:\n            topology = topology.subset(atom_indices)\n\n        data = self.read(",
+  "        topology = self.topology\n        if atom_indices is not None and stride is None:\n            topology = topology.subset(atom_indices)\n\n        data = self.read(", "C02-R5", "HDF5TrajectoryFile.read_as_traj")
 V("C02", "twin-time-commuted", "mdtraj/formats/xyzfile.py", "        time = (stride * np.arange(len(xyz))) + initial", "        time = initial + (np.arange(len(xyz)) * stride)", None)
 V("C02", "twin-positional-args", "mdtraj/formats/netcdf.py", """        xyz, time, cell_lengths, cell_angles = self.read(
             n_frames=n_frames,
